@@ -91,7 +91,8 @@ func runC16(rc *RunCtx) {
 		label, tld := rnsSplit(s.full)
 		genesis = append(genesis, rnstypes.Names{Name: label, Tld: tld, Expires: s.exp, Value: keys[s.owner], Data: "{}", Subdomains: []*rnstypes.Names{}})
 	}
-	c, err := chain.New(chain.Config{Seed: rc.Seed, NAcc: nacc, Fund: c16Fund(), RnsNames: genesis})
+	// one more account (index nacc), used only as a registrant that cannot pay
+	c, err := chain.New(chain.Config{Seed: rc.Seed, NAcc: nacc + 1, Fund: c16Fund(), RnsNames: genesis})
 	if err != nil {
 		rc.Abort("init: " + err.Error())
 		return
@@ -114,6 +115,29 @@ func runC16(rc *RunCtx) {
 	}
 	for _, s := range seeds {
 		rc.Logf("seeded %s owner a%d expires %d", s.full, s.owner, s.exp)
+	}
+	// the pauper keeps almost nothing; somebody else's open bid sits in the module account meanwhile (so the module
+	// account is not empty when the pauper tries to register: a registration that cannot be paid for must still fail
+	// and cost nothing)
+	pauper := nacc
+	{
+		keep := rc.Pick([]int64{0, 1, 999, 5_000_000})
+		for _, cn := range c.App.BankKeeper.GetAllBalances(c.Ctx(), c.Accs[pauper].Addr) {
+			amt := cn.Amount
+			if cn.Denom == rnsDenomA {
+				amt = amt.SubRaw(keep)
+			}
+			if amt.IsPositive() {
+				c.DeliverAs(pauper, bankSend(c.Accs[pauper].Addr, c.Accs[0].Addr, sdk.NewCoins(sdk.NewCoin(cn.Denom, amt))))
+			}
+		}
+		if st, err := w.observe(); err == nil {
+			w.st = st // balances moved by the drain are the new baseline
+		}
+		bid, _ := sdk.NewIntFromString("900000000000000000000")
+		if _, ok := w.Do(1, &rnstypes.MsgBid{Creator: c.Accs[1].Bech, Name: seeds[0].full, Bid: sdk.NewCoin(rnsDenomA, bid)}); !ok {
+			return
+		}
 	}
 	idx := func(addr string) int {
 		for i, a := range c.Accs {
@@ -318,6 +342,14 @@ func runC16(rc *RunCtx) {
 					return
 				}
 			}
+		}
+		if rc.Chance(0.12) {
+			full := fresh(3 + rc.Intn(6))
+			pool = append(pool, full)
+			if !register(pauper, full, rc.Pick([]int64{1, 1, 2})) {
+				return
+			}
+			rc.Count("registrations_by_an_account_that_cannot_pay", 1)
 		}
 		// PRNG registrations: fresh names of every length tier, re-registrations of anything in the pool
 		k := rc.Intn(3)
